@@ -1,1 +1,2 @@
 pub mod gds;
+pub mod tetris;
